@@ -45,7 +45,10 @@ def arguments_around(keyname: str, modal: bool):
         o = OPN[shape]
         inners = [Operated(o, (A, B)), Operated(o, (A, N(B))), Operated(o, (N(A), B)), Operated(o, (A, A))]
         pool = [A, B, N(A), N(B), Operated(Operator.Conjunction, (A, B)), Operated(Operator.Disjunction, (A, B)),
-                Operated(Operator.Disjunction, (N(A), B)), Operated(Operator.Conjunction, (N(A), N(B))), C]
+                Operated(Operator.Disjunction, (N(A), B)), Operated(Operator.Conjunction, (N(A), N(B))), C,
+                # value-forcing premises: a designated ~(B v ~B) pins B to a gap value, a designated B & ~B to a glut value
+                N(Operated(Operator.Disjunction, (B, N(B)))), Operated(Operator.Conjunction, (B, N(B))),
+                N(Operated(Operator.Disjunction, (A, N(A)))), Operated(Operator.Conjunction, (A, N(A)))]
     else:
         return []
     args = []
